@@ -359,6 +359,14 @@ class SymExec:
                 if s.value is not None:
                     env[s.target.id] = self.ex(s.value, env)
                 continue
+            if isinstance(s, ast.Assign) and len(s.targets) == 1 and isinstance(s.targets[0], (ast.Tuple, ast.List)) \
+                    and isinstance(s.value, (ast.Tuple, ast.List)) and len(s.value.elts) == len(s.targets[0].elts) \
+                    and all(isinstance(t, (ast.Name, ast.Subscript, ast.Attribute)) for t in s.targets[0].elts):
+                # `a, b = x, y`: every value is read before any target is written
+                vs = [self.ex(e, env) for e in s.value.elts]
+                for t, v in zip(s.targets[0].elts, vs):
+                    env[t.id if isinstance(t, ast.Name) else src(t)] = v
+                continue
             if isinstance(s, ast.Assign):
                 v = self.ex(s.value, env)
                 for t in s.targets:
